@@ -4,6 +4,7 @@
 --       <trace width> <composition columns> <FRI layers> <queries> <lde size> <extension degree> <grinding>
 --       … (the rest of the line — field, hasher, options, trace seed, AIR description — is for the harness)
 -- in the canonical text form the recording coin of harness/src/bin/c04.rs produces, and
+--   fri <layers> <ext> <queries> <domain> …   the FRI commit phase alone (`friProver`, `friVerifierLoop`)
 --   ctx <field> <A> <B>     (A, B = mw.aw.ar.log2len.meta.q.b.g.x.f.r) the seed elements `Context::to_elements`
 --       of two proof contexts as the model computes them (`ctxElems`).
 import Winter.Drv.Util
@@ -36,7 +37,7 @@ def parseCtx (fld : Nat × Nat) (s : String) : Option Ctx :=
   | [mw, aw, ar, ll, md, q, b, g, x, f, r] =>
     match natList [mw, aw, ar, ll, q, b, g, x, f, r], unhex md with
     | some [mw, aw, ar, ll, q, b, g, x, f, r], some md =>
-      if 1 ≤ mw ∧ mw + aw ≤ 255 ∧ ar ≤ 255 ∧ (aw = 0 → ar = 0) ∧ 3 ≤ ll ∧ ll ≤ 31 ∧ md.length ≤ 64 ∧
+      if 1 ≤ mw ∧ mw + aw ≤ 255 ∧ ar ≤ 255 ∧ (aw = 0 → ar = 0) ∧ 3 ≤ ll ∧ ll ≤ 31 ∧ md.length ≤ 200 ∧
          1 ≤ q ∧ q ≤ 255 ∧ isPow2 b ∧ 2 ≤ b ∧ b ≤ 128 ∧ 2 ^ ll * b < 4294967296 ∧ g ≤ 32 ∧ 1 ≤ x ∧ x ≤ 3 ∧
          (f = 2 ∨ f = 4 ∨ f = 8 ∨ f = 16) ∧ r ≤ 255 ∧ isPow2 (r + 1) then
         some { mainWidth := mw, auxWidth := aw, auxRands := ar, traceLen := 2 ^ ll, traceMeta := md,
@@ -54,6 +55,20 @@ def handle (toks : List String) : String :=
     match parseCfg rest with
     | some cfg => "P " ++ canon cfg (proverScript cfg) ++ " V " ++ canon cfg (verifierScript cfg)
     | none => "-"
+  | "fri" :: rest =>
+    -- fri <layers> <ext> <queries> <domain> …: the FRI commit phase alone (FriProver::build_layers over the FRI
+    -- crate's DefaultProverChannel, FriVerifier::new over DefaultVerifierChannel), coin created from an empty seed
+    match natList (rest.take 4) with
+    | some [layers, ext, q, dom] =>
+      if 1 ≤ ext ∧ ext ≤ 3 ∧ rest.length = 10 then
+        let cfg : Cfg := { aux := false, lagrange := false, gkrDraws := 0, auxRands := 0, nTrans := 0, nAssert := 0,
+                           logLen := 0, width := 0, cols := 0, friLayers := layers, queries := q, ldeSize := dom,
+                           ext := ext, grinding := 0 }
+        let tail : List CoinOp := [.reseedWithNonce, .drawInts q dom]
+        "P " ++ canon cfg ([.new []] ++ friProver layers ++ tail)
+          ++ " V " ++ canon cfg ([.new []] ++ friVerifierLoop 0 (friCommitments layers) ++ tail)
+      else "-"
+    | _ => "-"
   | ["ctx", fld, a, b] =>
     match fieldOfName fld with
     | some fd =>
